@@ -31,7 +31,7 @@ RULE = ("(a) mutate suite on ImmutableStructure classes and classes with Immutab
         "from another structure's field, that structure mutated afterwards; non-trivial = >=1 op/probe; distinct by case hash")
 ASSUMPTIONS = [
     "default configuration (defensive_copy_on_get on, no trusted instantiation); direct __dict__/object.__setattr__ access excluded",
-    "the accessor half of the property is decided by the alias probe on the real code plus the accessor-table obligation; only top-level ops and nested-wrapper calls are in the Lean machine",
+    "accessor half: proved on the heap model for the accessor modes of the regenerated table (extract/aliasing_c04.py: AST idiom + identity witness probe); the alias probe on the real code finds the failing input when a mode stops being true",
 ]
 
 
